@@ -169,3 +169,36 @@ def register(reg: Registry) -> None:
         ],
         properties=["C14"],
     )
+
+    # ------------------------------------------------------------------ small members added in session 4
+    # C14 "compares equal to the original": SourceMapPositionMark.__eq__ is exactly class membership + equality of all nine
+    # fields (SourceMapping.__eq__ calls type(), which is outside the pyvc subset: covered by the C14 stand-ins only)
+    reg.contract(
+        SM + ":SourceMapPositionMark.__eq__",
+        types={"self": "SourceMapPositionMark", "other": "Any"},
+        returns="bool",
+        ensures=[
+            "implies(not isinstance(other, SourceMapPositionMark), result == False)",
+            "implies(isinstance(other, SourceMapPositionMark), result == (" + " and ".join(f"self.{f} == typed(other, 'SourceMapPositionMark').{f}" for f in pm_fields) + "))",
+        ],
+        modifies=[],
+        canaries=["result"],
+        properties=["C14"],
+    )
+    # C08 / C18: a position mark written inside a macro is appended, with its file and macro, behind the earlier ones
+    reg.contract(
+        SM + ":SourceMapBuilder.add_macro_position_mark",
+        types={"self": "SourceMapBuilder", "if_incl_rel_path": "str | None", "macro_name": "str", "position_mark": "SourceMapPositionMark"},
+        returns="SourceMapBuilder",
+        ensures=[
+            "result is self",
+            "len(self._pos_marks_macros) == old(len(self._pos_marks_macros)) + 1",
+            "all_int(lambda j: implies(0 <= j and j < old(len(self._pos_marks_macros)), self._pos_marks_macros[j] is old(self._pos_marks_macros[j])))",
+            "self._pos_marks_macros[len(self._pos_marks_macros) - 1][0] is if_incl_rel_path",
+            "self._pos_marks_macros[len(self._pos_marks_macros) - 1][1] is macro_name",
+            "self._pos_marks_macros[len(self._pos_marks_macros) - 1][2] is position_mark",
+        ],
+        modifies=["list(self._pos_marks_macros)", "alloc"],
+        canaries=["len(self._pos_marks_macros) == old(len(self._pos_marks_macros))"],
+        properties=["C08"],
+    )
